@@ -20,7 +20,9 @@ import sys
 import time
 
 VERIF = os.path.dirname(os.path.dirname(os.path.abspath(__file__)))
-REPO = "/repo"
+# the repository under check; a background sweep may point this at a snapshot (VERIF_REPO=$VP_RUN_REPO),
+# the registered commands always use /repo itself
+REPO = os.environ.get("VERIF_REPO", "/repo")
 BUILD = os.path.join(VERIF, "build")
 LEAN = os.path.join(VERIF, "lean")
 TARGET = os.path.join(BUILD, "target")
@@ -85,6 +87,15 @@ def build_harness(fset="default"):
     """rebuilds the harness (and with it /repo/lib from the current working tree)"""
     with Lock("cargo"):
         crate = os.path.join(VERIF, "harness", "libharness")
+        if REPO != "/repo":
+            # same sources, path dependency redirected to the snapshot
+            import shutil
+            alt = os.path.join(VERIF, "build", "harness-alt", "libharness")
+            shutil.rmtree(alt, ignore_errors=True)
+            shutil.copytree(crate, alt, ignore=shutil.ignore_patterns("target"))
+            ct = open(os.path.join(alt, "Cargo.toml")).read().replace('"/repo/lib"', '"%s/lib"' % REPO)
+            open(os.path.join(alt, "Cargo.toml"), "w").write(ct)
+            crate = alt
         lock_src = os.path.join(REPO, "Cargo.lock")
         lock_dst = os.path.join(crate, "Cargo.lock")
         if not os.path.exists(lock_dst):
